@@ -72,6 +72,13 @@ CLAIMED["C15"] = dict(
     note="Trusted base: serde record definitions are the schema; 'lookup identifier' = substance name (all documented lookups use IdentifierOption::Name; several files deliberately hold several parameterisations of one CAS number). Saturation curve sampled at the 8 reduced temperatures the property was calibrated on.",
 )
 
+CLAIMED["C14"] = dict(
+    category="exploration",
+    technique="exhaustive enumeration of ordered query subsets x identifier kinds x file orders x binary orientations; all segment orders of chemical records; reference re-implementation and differential oracles",
+    text="For the small parameter files every ordered query subset up to size 3-4, every identifier kind the records carry, three file orders and four variants of the binary file (original, every record's identifiers swapped, reversed, absent) are pushed through from_json / from_multiple_json and compared with the raw records; duplicates and missing names must be rejected; every gc substance is compared with a reference implementation of the combining rules and rebuilt in every order of its segment list (bonds relabelled) for homo- and heterosegmented models; every record of every pure file is serialised, re-read and compared bit-for-bit in behaviour.",
+    design_ref="§5 C14",
+)
+
 NOT_YET = "check not built yet (work in progress; see DESIGN.md §9 build order) - not a claim that the technique cannot apply"
 
 ALL = ["C%02d" % i for i in range(1, 21)]
